@@ -60,3 +60,9 @@ fire("C31", "parallel-dispatch-restores-order-with-the-same-permutation",
 silent("C31", "postselection-call-passes-rng-explicitly",
        [(_SIM, "                state, is_state_batched, circuit.shots, prng_key=key, **execution_kwargs\n",
                "                state,\n                is_state_batched,\n                circuit.shots,\n                prng_key=key,\n                rng=execution_kwargs.get(\"rng\", None),\n                postselect_mode=execution_kwargs.get(\"postselect_mode\", None),\n")])
+
+# --- R-C31-wiremap
+fire("C31", "standard-wire-map-enumerates-a-set-of-operation-wires",
+     ("pennylane/core/qscript.py", "        op_wires = Wires.all_wires(op.wires for op in self.operations)\n        work_wires = Wires.all_wires(getattr(op, \"work_wires\", []) for op in self.operations)",
+      "        op_wires = set(Wires.all_wires(op.wires for op in self.operations))\n        work_wires = Wires.all_wires(getattr(op, \"work_wires\", []) for op in self.operations)"),
+     "R-C31-wiremap", "_get_standard_wire_map")
